@@ -424,6 +424,7 @@ package fit
 
 //@@ what the profile tables guarantee about the fields the encoder writes (the same facts C15 checks, as a lemma)
 //@ lemma enc_field_ok(m MesgNum)
+//@   timeout 120
 //@   props C05 C06 C07 C15
 //@   reveal tables, rvtables
 //@   concl forall n byte :: pfound(m, n) ==> knownMsgNums[m] && 0 <= pf(m, n).sindex && pf(m, n).sindex < rvNumField(int(m)) && byte(pf(m, n).t)&0x1F <= 16 &&
@@ -494,7 +495,7 @@ package fit
 //@ lemma sindex_row(m MesgNum, i int)
 //@   props C05 C06 C07 C15
 //@   reveal tables, rvtables
-//@   timeout 60
+//@   timeout 120
 //@   concl knownMsgNums[m] && 0 <= i && i < rvNumField(int(m)) ==> 0 <= rvRow(int(m), i) && rvRow(int(m), i) < 256 && pfound(m, byte(rvRow(int(m), i))) && pf(m, byte(rvRow(int(m), i))).sindex == i && int(pf(m, byte(rvRow(int(m), i))).num) == rvRow(int(m), i) && byte(pf(m, byte(rvRow(int(m), i))).t)&0x1F <= 16 && (rvClass(int(m), i) == 5 ==> tagsize(rvTypeTag(int(m), i)) == 0 && rvTypeTag(int(m), i) != typetag[string]())
 //@ lemma rows_numbered(m MesgNum)
 //@   props C05 C06 C07 C15
@@ -1403,13 +1404,14 @@ package fit
 //@   assigns d.file.UnknownMessages
 
 //@ lemma frame_exact(pos int, p0 int, n int, i int, j int, size byte, dsize uint32)
+//@   timeout 120
 //@   props C10 C11
 //@   hyp pos-n-(j-i) == p0+int(size)+2 && n == int(dsize) && i == j
 //@   concl pos == p0+int(size)+int(dsize)+2
 
 //@ lemma frame_bound(pos int, p0 int, n int, i int, j int, size byte, dsize uint32)
 //@   props C10 C11
-//@   timeout 90
+//@   timeout 120
 //@   hyp pos-n-(j-i) <= p0+int(size)+2 && 0 <= n+(j-i) && n+(j-i) <= int(dsize) && 0 <= p0 && p0 < 1<<50 && 0 <= pos && pos < 1<<50 && 0 <= n && n <= 1<<33 && 0 <= j-i && j-i <= 4096
 //@   concl pos <= p0+int(size)+int(dsize)+2
 
